@@ -42,18 +42,19 @@ def dump_mir(force=False):
     cmd = ['cargo', 'rustc', '--offline', '--lib', '--target-dir', os.path.join(out_dir, 'target'), '--',
            '-Zunpretty=mir', '-C', 'overflow-checks=on', '-C', 'debug-assertions=off']
     t0 = time.time()
+    tmp = out + '.tmp%d' % os.getpid()        # private per process: concurrent dumps must not share the scratch file
     for attempt in range(2):
-        with open(out + '.tmp', 'w') as f:
+        with open(tmp, 'w') as f:
             p = subprocess.run(cmd, cwd=REPO, env=env, stdout=f, stderr=subprocess.PIPE, text=True)
         if p.returncode != 0:
             sys.stderr.write(p.stderr[-4000:])
             raise SystemExit(2)
-        if os.path.getsize(out + '.tmp') > 1000:
+        if os.path.getsize(tmp) > 1000:
             break
         # fresh: force a rebuild of the crate only
         subprocess.run(['cargo', 'clean', '--offline', '-p', 'zerv', '--target-dir', os.path.join(out_dir, 'target')],
                        cwd=REPO, env=env, stdout=subprocess.DEVNULL, stderr=subprocess.DEVNULL)
-    os.replace(out + '.tmp', out)
+    os.replace(tmp, out)
     open(stamp, 'w').write(h)
     sys.stderr.write('[msym] MIR dump %.1fs (%d bytes)\n' % (time.time() - t0, os.path.getsize(out)))
     return out
